@@ -55,8 +55,6 @@ class CSSParser:
         if loglevel is not None:
             cssutils.log.setLevel(loglevel)
 
-        # remember global setting
-        self.__globalRaising = cssutils.log.raiseExceptions
         if raiseExceptions:
             self.__parseRaising = raiseExceptions
         else:
@@ -74,11 +72,13 @@ class CSSParser:
         init parameter ``raiseExceptions``, the global setting is restored
         afterwards even if parsing raises
         """
+        # remember global setting
+        globalRaising = cssutils.log.raiseExceptions
         cssutils.log.raiseExceptions = self.__parseRaising
         try:
             yield
         finally:
-            cssutils.log.raiseExceptions = self.__globalRaising
+            cssutils.log.raiseExceptions = globalRaising
 
     def parseStyle(self, cssText, encoding='utf-8', validate=None):
         """Parse given `cssText` which is assumed to be the content of
